@@ -6,6 +6,7 @@ export CARGO_NET_OFFLINE=true
 WT=/tmp/seedconfirm
 mkdir -p /tmp/seed/confirm
 [ -d $WT ] || git -C /repo worktree add --detach $WT HEAD -q
+(cd $WT && git checkout -q -- . && git clean -fdq tests src && git checkout -q --detach $(git -C /repo rev-parse HEAD))
 export TMPDIR=$WT/target/tmp; mkdir -p $TMPDIR
 for ID in "$@"; do
   for M in /tmp/seed/$ID/out/m*/; do
@@ -13,6 +14,7 @@ for ID in "$@"; do
     n=$(basename $M); OUT=/tmp/seed/confirm/${ID}_$n.txt; : > $OUT
     cd $WT && git checkout -q -- . && git clean -fdq tests src
     demo=tests/zz_demo_${ID}_$n.rs
+    unset PEARL_COMPAT_CORPUS; [ -d $M/corpus ] && export PEARL_COMPAT_CORPUS=$M/corpus
     unit=""
     if grep -q "mod common" $M/demo.rs 2>/dev/null || grep -q "^use pearl" $M/demo.rs 2>/dev/null || grep -q "pearl::" $M/demo.rs; then cp $M/demo.rs $demo; else unit=1; fi
     if [ -n "$unit" ]; then echo "UNIT-STYLE demo (needs manual placement)" >> $OUT; fi
